@@ -95,6 +95,15 @@ def added_twice_corpus():
                                 [['Pair', 'Qx-Qy', 'as.constant 1.0'], ['Pair', 'Qy-Qx', 'as.constant 2.0']],
                                 [['Potential-Form', 'qf(r,A)', 'A'], ['Potential-Form', 'qf(r, A)', 'A*2']]]):
         out.append({'model': sc.gen_model(random.Random(2000 + k)), 'mutation': 'added_twice', 'route': 'additional_twice', 'extras': extras})
+    # twelfth round: a table form of the file defined again by ADDED x / y items under another spelling of its section header
+    for k in (10, 11, 12):
+        m = sc.gen_model(random.Random(2000 + k), with_table=True)
+        s, es = find_section(m, 'Table-Form')
+        if s is None: continue
+        other = sc.sect_name(('Table-Form', s[1], (s[2] + 1 + k % 3) % 4))
+        if other == sc.sect_name(s): continue
+        out.append({'model': m, 'mutation': 'table_added_other_spelling', 'route': 'additional_twice',
+                    'extras': [[other, 'x', '0.0 1.0 2.0 3.0 4.5'], [other, 'y', '7.0 7.0 7.0 7.0 7.0']]})
     return out
 
 def run_impl(case):
